@@ -6,7 +6,7 @@
 #include "c04_common.h"
 #include "ownership_ref.h"
 
-_Bool in_valid, in_is_bus_name; int in_byte0, in_len;
+_Bool in_valid, in_is_bus_name; int in_byte0, in_namelen;
 _Bool in_exists, in_req_is_primary, in_req_in_queue;
 static BusRegistry reg; static BusService svc; static char c_req, c_tx; static DBusString the_name;
 #define REQ ((DBusConnection *) &c_req)
@@ -15,8 +15,8 @@ struct { int validate, lookup, in_queue_q, remove; _Bool remove_ok; } G;
 static _Bool g_member;   /* requester is in the queue (primary or waiting) - current value */
 
 dbus_bool_t _dbus_validate_bus_name (const DBusString *str, int start, int len)
-{ PRE (str == &the_name && start == 0 && len == in_len, "_dbus_validate_bus_name: whole name"); G.validate++; return in_valid; }
-int _dbus_string_get_length (const DBusString *str) { PRE (str == &the_name, "_dbus_string_get_length"); return in_len; }
+{ PRE (str == &the_name && start == 0 && len == in_namelen, "_dbus_validate_bus_name: whole name"); G.validate++; return in_valid; }
+int _dbus_string_get_length (const DBusString *str) { PRE (str == &the_name, "_dbus_string_get_length"); return in_namelen; }
 unsigned char _dbus_string_get_byte (const DBusString *str, int start) { PRE (str == &the_name && start == 0 && G.validate == 1 && in_valid, "_dbus_string_get_byte: validated name, byte 0"); return (unsigned char) in_byte0; }
 const char *_dbus_string_get_const_data (const DBusString *str) { return some_string; }
 dbus_bool_t _dbus_string_equal_c_str (const DBusString *a, const char *c_str)
@@ -35,9 +35,9 @@ dbus_bool_t verif_stub_bus_service_remove_owner (BusService *s, DBusConnection *
 void harness (void)
 {
   DBusError err; dbus_uint32_t res = nondet_uint ();
-  in_valid = nondet_bool (); in_is_bus_name = nondet_bool (); in_byte0 = nondet_int (); in_len = nondet_int ();
+  in_valid = nondet_bool (); in_is_bus_name = nondet_bool (); in_byte0 = nondet_int (); in_namelen = nondet_int ();
   in_exists = nondet_bool (); in_req_is_primary = nondet_bool (); in_req_in_queue = nondet_bool ();
-  __CPROVER_assume (in_byte0 >= 0 && in_byte0 <= 255 && in_len >= 0);
+  __CPROVER_assume (in_byte0 >= 0 && in_byte0 <= 255 && in_namelen >= 0);
   __CPROVER_assume (IMP (!in_exists, !in_req_is_primary && !in_req_in_queue));
   __CPROVER_assume (!(in_req_is_primary && in_req_in_queue));
   g_member = in_req_is_primary || in_req_in_queue;
